@@ -43,7 +43,8 @@ RULE = ("graphs: lib.Rng.GenVal values split bottom-up into 0-3 dag-cbor blocks 
         "odd index spellings, through links and chains of link-only blocks, segments string- or int-stored, numeric-looking "
         "map keys; callbacks const/identity/delete/wrap; createParents on/off; failing transforms inside the run - values "
         "the block codec refuses, injected storage faults - followed by valid ones) or one "
-        "WalkTransforming with a selector of the modelled fragment; fixed corpus of boundary cases and finding witnesses "
+        "WalkTransforming with a selector of the modelled fragment (matcher, all, fields, index, range, union, recursive; "
+        "the returned tree and the (path, node) callback log are compared); fixed corpus of boundary cases and finding witnesses "
         "first; distinct = distinct (blocks, root, steps); non-trivial = at least one step beyond the root")
 SEARCH_SEEDS = [1000003, 2000003]
 
